@@ -6,15 +6,18 @@
 package harness
 
 import (
+	"encoding/base64"
 	"encoding/binary"
 	"encoding/json"
 	"fmt"
 	"hash/fnv"
 	"os"
 	"path/filepath"
+	"reflect"
 	"sort"
 	"strings"
 	"sync"
+	"unicode/utf8"
 )
 
 // Fataler is what *rapid.T and *testing.T have in common for our purposes.
@@ -205,7 +208,7 @@ func (r *Rec) writeReplay(caseObj any, msg string) string {
 	r.mu.Unlock()
 	path := filepath.Join(dir, fmt.Sprintf("%s-%s%s.json", r.Property, tag, sub))
 	obj := map[string]any{"property": r.Property, "case": caseObj, "violation": msg}
-	b, err := json.MarshalIndent(obj, "", " ")
+	b, err := MarshalSafe(obj, true)
 	if err != nil {
 		b, _ = json.Marshal(map[string]any{"property": r.Property, "violation": msg, "marshal_error": err.Error()})
 	}
@@ -280,5 +283,137 @@ func LoadReplay(path string, v any) error {
 	if err := json.Unmarshal(b, &obj); err != nil {
 		return err
 	}
-	return json.Unmarshal(obj.Case, v)
+	return UnmarshalSafe(obj.Case, v)
+}
+
+// ---------- JSON that survives arbitrary bytes in strings ----------
+
+// encoding/json replaces invalid UTF-8 in strings by U+FFFD, which would
+// silently change sources that carry arbitrary bytes in comments. Strings
+// that are not valid UTF-8 are therefore written as "\x00b64:<base64>" and
+// decoded again on load.
+
+const b64Marker = "\x00b64:"
+
+func escapeCopy(v reflect.Value) reflect.Value {
+	switch v.Kind() {
+	case reflect.String:
+		s := v.String()
+		if !utf8.ValidString(s) || strings.HasPrefix(s, b64Marker) {
+			out := reflect.New(v.Type()).Elem()
+			out.SetString(b64Marker + base64.StdEncoding.EncodeToString([]byte(s)))
+			return out
+		}
+		return v
+	case reflect.Pointer:
+		if v.IsNil() {
+			return v
+		}
+		out := reflect.New(v.Type().Elem())
+		out.Elem().Set(escapeCopy(v.Elem()))
+		return out
+	case reflect.Interface:
+		if v.IsNil() {
+			return v
+		}
+		out := reflect.New(v.Type()).Elem()
+		out.Set(escapeCopy(v.Elem()))
+		return out
+	case reflect.Struct:
+		out := reflect.New(v.Type()).Elem()
+		out.Set(v)
+		for i := 0; i < v.NumField(); i++ {
+			if out.Field(i).CanSet() {
+				out.Field(i).Set(escapeCopy(v.Field(i)))
+			}
+		}
+		return out
+	case reflect.Slice:
+		if v.IsNil() || v.Type().Elem().Kind() == reflect.Uint8 {
+			return v
+		}
+		out := reflect.MakeSlice(v.Type(), v.Len(), v.Len())
+		for i := 0; i < v.Len(); i++ {
+			out.Index(i).Set(escapeCopy(v.Index(i)))
+		}
+		return out
+	case reflect.Map:
+		if v.IsNil() {
+			return v
+		}
+		out := reflect.MakeMapWithSize(v.Type(), v.Len())
+		it := v.MapRange()
+		for it.Next() {
+			out.SetMapIndex(it.Key(), escapeCopy(it.Value()))
+		}
+		return out
+	}
+	return v
+}
+
+func unescapeInPlace(v reflect.Value) {
+	switch v.Kind() {
+	case reflect.String:
+		if s := v.String(); strings.HasPrefix(s, b64Marker) && v.CanSet() {
+			if raw, err := base64.StdEncoding.DecodeString(s[len(b64Marker):]); err == nil {
+				v.SetString(string(raw))
+			}
+		}
+	case reflect.Pointer, reflect.Interface:
+		if !v.IsNil() {
+			if v.Kind() == reflect.Interface {
+				// interface values are not addressable: rebuild
+				inner := reflect.New(v.Elem().Type()).Elem()
+				inner.Set(v.Elem())
+				unescapeInPlace(inner)
+				if v.CanSet() {
+					v.Set(inner)
+				}
+				return
+			}
+			unescapeInPlace(v.Elem())
+		}
+	case reflect.Struct:
+		for i := 0; i < v.NumField(); i++ {
+			if v.Field(i).CanSet() {
+				unescapeInPlace(v.Field(i))
+			}
+		}
+	case reflect.Slice:
+		if v.Type().Elem().Kind() == reflect.Uint8 {
+			return
+		}
+		for i := 0; i < v.Len(); i++ {
+			unescapeInPlace(v.Index(i))
+		}
+	case reflect.Map:
+		it := v.MapRange()
+		for it.Next() {
+			val := reflect.New(it.Value().Type()).Elem()
+			val.Set(it.Value())
+			unescapeInPlace(val)
+			v.SetMapIndex(it.Key(), val)
+		}
+	}
+}
+
+// MarshalSafe is json.Marshal that keeps strings with arbitrary bytes intact.
+func MarshalSafe(v any, indent bool) ([]byte, error) {
+	if v == nil {
+		return json.Marshal(v)
+	}
+	c := escapeCopy(reflect.ValueOf(v)).Interface()
+	if indent {
+		return json.MarshalIndent(c, "", " ")
+	}
+	return json.Marshal(c)
+}
+
+// UnmarshalSafe is the inverse; v must be a pointer.
+func UnmarshalSafe(b []byte, v any) error {
+	if err := json.Unmarshal(b, v); err != nil {
+		return err
+	}
+	unescapeInPlace(reflect.ValueOf(v))
+	return nil
 }
